@@ -1136,8 +1136,15 @@ def rule_show_diffs_compares_all(repo: Repo, rep, rule: str = "R9.4") -> None:
                     skipped = skipped or (x, f"the compared files are a filtered list (`{norm(x)[:60]}`)")
                 if isinstance(x, ast.Call) and isinstance(x.func, ast.Name) and x.func.id == "filter":
                     skipped = skipped or (x, f"the compared files are a filtered list (`{norm(x)[:60]}`)")
+        def _own_jump(b: ast.AST) -> bool:
+            """a continue / break of *this* loop (not of a loop nested in it, e.g. the one-shot loop an inlined helper's returns become)"""
+            q = parent(b)
+            while q is not None and not isinstance(q, (ast.For, ast.AsyncFor, ast.While)):
+                q = parent(q)
+            return q is lp
+
         for x in ast.walk(lp):
-            if isinstance(x, ast.If) and any(isinstance(b, (ast.Continue, ast.Break)) for b in x.body) and not any(_exists_call(y) for y in ast.walk(x.test)):
+            if isinstance(x, ast.If) and any(isinstance(b, (ast.Continue, ast.Break)) and _own_jump(b) for b in x.body) and not any(_exists_call(y) for y in ast.walk(x.test)):
                 skipped = skipped or (x, f"`{norm(x.test)[:60]}` skips files of the newly generated tree")
     if cmp_loops:
         if skipped:
